@@ -121,6 +121,96 @@ example : validateSpline [[((false, 0), .form "as.buck" [1000, 3/10, 0]), ((fals
   rw [C16_spline_iff]
   refine ⟨_, _, _, _, _, _, _, rfl, by decide +kernel, by decide +kernel, Or.inr ⟨rfl, _, rfl, by decide +kernel, by decide +kernel⟩⟩
 
+/-! ## Signatures of custom forms: when does a name read the argument in its position?
+
+The formula language is case-insensitive and `__call__` writes the arguments into ONE table keyed by name.  `C16_signature_positional`: if no two names
+of the signature agree up to case (`validSignature`, the check added by the `fix:` commit), every name reads exactly the argument in its position - for every
+signature length and every argument list.  `C16_signature_shipped_witness`: without the check, `f(r, A, a)` called with (5, 1, 2) reads 2 for `A`
+(the shipped behaviour, replayed on the implementation by C09's binding probes). -/
+
+theorem sigClash_none_iff (seen ns : List String) :
+    sigClash seen ns = none ↔
+      (∀ n ∈ ns, ∀ s ∈ seen, s.toLower ≠ n.toLower) ∧ (ns.map String.toLower).Pairwise (· ≠ ·) := by
+  induction ns generalizing seen with
+  | nil => simp [sigClash]
+  | cons n ns ih =>
+    unfold sigClash
+    cases hf : seen.find? (fun s => s.toLower == n.toLower) with
+    | some s =>
+      have hm := List.mem_of_find?_eq_some hf
+      have hp := List.find?_some hf
+      simp only [reduceCtorEq, false_iff, not_and]
+      intro h
+      exact absurd (by simpa using hp) (h n (by simp) s hm)
+    | none =>
+      have hnone : ∀ s ∈ seen, s.toLower ≠ n.toLower := by
+        intro s hs
+        have := List.find?_eq_none.mp hf s hs
+        simpa using this
+      simp only [ih, List.map_cons, List.pairwise_cons, List.mem_cons, List.mem_append, List.mem_singleton, List.mem_map]
+      constructor
+      · rintro ⟨h1, h2⟩
+        refine ⟨?_, ?_, h2⟩
+        · rintro m (rfl | hm) s hs
+          · exact hnone s hs
+          · exact h1 m hm s (Or.inl hs)
+        · rintro _ ⟨m, hm, rfl⟩
+          exact h1 m hm n (Or.inr (by simp))
+      · rintro ⟨h1, h2, h3⟩
+        refine ⟨?_, h3⟩
+        rintro m hm s (hs | hs)
+        · exact h1 m (Or.inr hm) s hs
+        · have : s = n := by simpa using hs
+          subst this
+          exact h2 _ ⟨m, hm, rfl⟩
+
+/-- the check accepts a signature exactly when its names are pairwise different up to case -/
+theorem C16_signature_iff (ns : List String) : validSignature ns = true ↔ (ns.map String.toLower).Pairwise (· ≠ ·) := by
+  unfold validSignature
+  rw [Option.isNone_iff_eq_none, sigClash_none_iff]
+  simp
+
+theorem lookup_absent (ns : List String) (vs : List Rat) (n : String) (h : ∀ m ∈ ns, m.toLower ≠ n.toLower) :
+    lookupParam (bindParams ns vs) n = none := by
+  induction ns generalizing vs with
+  | nil => simp [bindParams, lookupParam]
+  | cons m ms ih =>
+    cases vs with
+    | nil => simp [bindParams, lookupParam]
+    | cons v vs =>
+      have hm : (m.toLower == n.toLower) = false := by simpa using h m (by simp)
+      simp [bindParams, lookupParam, ih vs (fun k hk => h k (by simp [hk])), hm]
+
+/-- **positional binding**: under the signature check every name reads the argument given in its position -/
+theorem C16_signature_positional (ns : List String) (vs : List Rat) (hlen : ns.length = vs.length) (hv : validSignature ns = true)
+    (i : Nat) (hi : i < ns.length) : lookupParam (bindParams ns vs) ns[i] = some (vs[i]'(hlen ▸ hi)) := by
+  rw [C16_signature_iff] at hv
+  induction ns generalizing vs i with
+  | nil => simp at hi
+  | cons n ns ih =>
+    cases vs with
+    | nil => simp at hlen
+    | cons v vs =>
+      have hp : (∀ a' ∈ ns.map String.toLower, n.toLower ≠ a') ∧ (ns.map String.toLower).Pairwise (· ≠ ·) := List.pairwise_cons.mp hv
+      cases i with
+      | zero =>
+        have habs : lookupParam (bindParams ns vs) n = none := by
+          apply lookup_absent
+          intro m hm
+          exact fun e => hp.1 m.toLower (List.mem_map.mpr ⟨m, hm, rfl⟩) e.symm
+        simp [bindParams, lookupParam, habs]
+      | succ j =>
+        have hj : j < ns.length := by simpa using hi
+        have := ih vs (by simpa using hlen) hp.2 j hj
+        simp [bindParams, lookupParam, this]
+
+/-- the shipped behaviour (no check): `f(r, A, a)` called with (5, 1, 2) reads 2 for `A` -/
+theorem C16_signature_shipped_witness :
+    validSignature ["r", "A", "a"] = false ∧ lookupParam (bindParams ["r", "A", "a"] [5, 1, 2]) "A" = some 2 := by
+  decide +kernel
+
+example : validSignature ["r", "A", "rho", "C"] = true := by decide +kernel
+
 /-! ## The code itself: target synonyms and the registry of tabulation factories, regenerated from the source
 
 `Atsim.Gen.Logic.init_target` is `_TabulationSection._init_target` (its `_target_synonyms` dictionary included) and
